@@ -437,10 +437,13 @@ func (x *Exec) applyContract(fr *Frame, st *State, spec *FuncSpec, key string, n
 		if x.pure == 0 && !x.em.discard {
 			o := &Obligation{Name: fmt.Sprintf("%s/%scall:%s@%d/pre:%s", x.topKey, fr.prefix, key, occ, c.Label), Kind: "call-pre",
 				Guard: st.Reach, Prop: p, AltProp: alt, Pos: x.pos(pos), Src: c.Src, FnName: x.topKey, Inputs: x.inputs}
+			// a precondition is assumed once asserted: every property the calling
+			// function serves rests on it, whatever the clause itself is tagged with
 			o.Props = append(o.Props, c.Props...)
-			if len(c.Props) == 0 {
-				// an untagged precondition serves whatever the calling function serves
-				o.Props = append(o.Props, x.defProps...)
+			for _, dp := range x.defProps {
+				if !contains(o.Props, dp) {
+					o.Props = append(o.Props, dp)
+				}
 			}
 			if x.inC11 && contains(c.Props, "C11") && !contains(o.Props, "C11") {
 				o.Props = append(o.Props, "C11")
